@@ -40,6 +40,8 @@ _FLAGS_QR_RESPONSE_AA = _FLAGS_QR_RESPONSE | _FLAGS_AA
 
 float_ = float
 
+_MAX_LABEL_LENGTH = 63
+
 
 class QuestionAnswers:
     """A group of answers to a question."""
@@ -94,9 +96,18 @@ def construct_outgoing_unicast_answers(
     # Adding the questions back when the source is legacy unicast behavior
     if ucast_source:
         for question in questions:
-            out.add_question(question)
+            # A name received with invalid UTF-8 is decoded with replacement
+            # characters and can end up with labels that are too long to be
+            # written again; such a question cannot be echoed.
+            if _name_is_encodable(question.name):
+                out.add_question(question)
     _add_answers_additionals(out, answers)
     return out
+
+
+def _name_is_encodable(name: str) -> bool:
+    """Check that every label of a name fits in a DNS label when encoded."""
+    return all(len(label.encode('utf-8')) <= _MAX_LABEL_LENGTH for label in name.split('.'))
 
 
 def _add_answers_additionals(out: DNSOutgoing, answers: _AnswerWithAdditionalsType) -> None:
